@@ -49,4 +49,39 @@ def held (c : Cap) : Int := c.inAccept.length + c.opened.length
 /-- no adjustment pending or parked -/
 def quiet (c : Cap) : Bool := c.pending.isEmpty && c.waiters.all (·.kind != WKind.adj)
 
+/-! ### Executable specification of one settled snapshot (used by the judges, `Driver/C17.lean`)
+
+`Obs` is what the `sem` / `listener` / `reload` harnesses observe once every spawned goroutine has finished
+or is parked. `obsViolation` names the violated clause; `Proofs/ConnCapLive.lean: obsViolation_none_of_inv`
+and `Props/C17.lean: spec_accepts_model` prove that no settled reachable model state violates it. -/
+
+structure Obs where
+  cur : Int            -- `Weighted.cur`
+  unitsHeld : Int      -- units held by connections / acquirers (incl. the acceptor's own unit)
+  parked : Nat         -- `SetMaxCount` goroutines parked in `Acquire`
+  capNow : Int         -- value of the last `SetMaxCount` (clamped to `maxCapacity`)
+  unitWaiting : Bool   -- somebody waits in the queue for one unit
+  settled : Bool
+deriving DecidableEq, Repr
+
+def obsViolation (o : Obs) : Option String :=
+  if !o.settled then some "hang:goroutines-not-parked"
+  else if o.cur > M then some "semaphore:cur-above-size"
+  else if o.parked == 0 && decide (o.unitsHeld > o.capNow) then some "cap:more-open-than-cap"
+  else if o.parked == 0 && decide (o.cur ≠ M - o.capNow + o.unitsHeld) then some "setmax:not-applied"
+  else if decide (o.parked > 0) && decide (o.unitsHeld ≤ o.capNow) then some "setmax:parked-shrink-not-applied"
+  else if o.parked == 0 && o.unitWaiting && decide (o.unitsHeld < o.capNow) then some "liveness:free-capacity-not-used"
+  else none
+
+def obsOK (o : Obs) : Bool := (obsViolation o).isNone
+
+/-- the observation a settled model state gives -/
+def obsOf (c : Cap) : Obs :=
+  { cur := c.cur, unitsHeld := held c, parked := (c.waiters.filter (·.kind == WKind.adj)).length,
+    capNow := c.realCap, unitWaiting := c.waiters.any (·.kind == WKind.unit), settled := true }
+
+/-- listener harnesses: the largest number of open accepted connections seen at any accept since the previous
+snapshot, while the cap was unchanged and every change applied -/
+def intervalOK (maxOpen : Nat) (capNow : Int) : Bool := decide ((maxOpen : Int) ≤ capNow)
+
 end EgVerif.ConnCap
